@@ -627,8 +627,12 @@ func (a *segment) Persist(file File, options *StoreOptions) (rv SegmentLoc, err 
 // loadBasicSegment loads a basic segment.
 func loadBasicSegment(sloc *SegmentLoc) (Segment, error) {
 	var kvs []uint64
-	var buf []byte
 	var err error
+
+	// A segment whose only entries have an empty key and an empty value
+	// (or delete the empty key) persists zero buf bytes; its buf must still
+	// be non-nil, as readers tell "entry found" from a non-nil val.
+	buf := []byte{}
 
 	if sloc.KvsBytes > 0 {
 		if sloc.KvsBytes > uint64(len(sloc.mref.buf)) {
